@@ -166,14 +166,20 @@ def spec_of(name, d, argv_extra=(), yrel=None, links=None, path=None):
     return sp
 
 
-def pairs_scope(r, name, d, thorough):
+def pairs_scope(r, name, d, thorough, offset=0):
     """(i) option / format on a container vs on each contained function."""
     out = []
     funcs_top = [e for e in d.get("declarations", []) if is_func_entry(e)]
     settings = [("options", k, v) for k, vs in FUNC_OPTIONS.items() for v in vs] + \
                [("format", k, v) for k, vs in FUNC_FORMATS.items() for v in vs]
     if not thorough:
-        settings = r.sample(settings, 4)
+        # rotate through the whole list from library to library (every setting meets several libraries in every run);
+        # the wrapper-forcing options only matter where wrappers are optional (language c), so they are always tried there
+        n_ = len(settings)
+        pick = [settings[(offset + j) % n_] for j in range(4)]
+        if d.get("language") == "c":
+            pick += [x for x in settings if x[1] in ("C_force_wrapper", "F_force_wrapper") and x not in pick]
+        settings = pick
     classes = [e for e in decl_entries(d) if e["decl"].lstrip().startswith(("class", "template<typename T> class"))]
     has_members = any("(" not in m["decl"] for c in classes for m in c.get("declarations") or [])
     for field, k, v in settings:
@@ -319,9 +325,9 @@ def main(rec):
     singles = [x for x in libs if not x[0].startswith("gmix")]
     if not thorough:
         singles = [x for i, x in enumerate(singles) if i % 6 == common.seed() % 6]
-    for name, d, meta in mixes + singles:
+    for li, (name, d, meta) in enumerate(mixes + singles):
         prs = []
-        prs += pairs_scope(r, name, d, thorough) if (name.startswith("gmix") or thorough) else pairs_scope(r, name, d, False)[:2]
+        prs += pairs_scope(r, name, d, thorough, 4 * li) if (name.startswith("gmix") or thorough) else pairs_scope(r, name, d, False, 4 * li)[:2]
         prs += pairs_attrs(name, d)
         prs += pairs_block(r, name, d)
         for rel, a, b in prs:
